@@ -1161,6 +1161,17 @@ def draw_program(draw, cfg=None):
                 if t2 is not None:
                     cr_twin = (a2, t2)
                     break
+        if cr_twin is None and cfg.get("order_twin_prob") and g.boolean(cfg["order_twin_prob"]):
+            # two top-k steps over the same node that differ in ONE of reverse / limit / order of the order columns
+            nd_o = step_order_rows(g, b.schemas[p], final=False)
+            if nd_o is not None and nd_o["cols"]:
+                if nd_o["limit"] is None or nd_o["limit"] == 0:
+                    nd_o["limit"] = g.pick([1, 2, 3])
+                nd_o["src"] = p
+                a2 = b.add(nd_o)
+                t2 = b.twin(a2) if a2 is not None else None
+                if t2 is not None:
+                    cr_twin = (a2, t2)
         if cr_twin is not None:
             a, c = cr_twin
         elif cfg.get("narrowing_tails") and g.boolean(0.6):
